@@ -11,6 +11,11 @@ def gen_knots(rng, nmin=4, nmax=12, positive=False, lo=-600.0, hi=300.0):
     xs = sorted(set(round(rng.uniform(lo, hi), rng.choice([0, 1, 2])) for _ in range(n + 3)))[:n]
     while len(xs) < nmin:
         xs.append(xs[-1] + rng.uniform(1, 50))
+    if rng.random() < 0.25:
+        xs = sorted({float(int(round(x))) for x in xs})
+        while len(xs) < nmin:
+            xs.append(xs[-1] + float(rng.randint(1, 50)))
+        xs = [int(x) if rng.random() < 0.5 else x for x in xs]       # whole numbers, some as Python ints
     if positive:
         ys = [10 ** rng.uniform(-6, 6) for _ in xs]
     else:
